@@ -741,3 +741,221 @@ Proof.
   pose proof (t_apply_un p j t (its_state p i L b)) as U. rewrite its_state_un in U. unfold unview in U. injection U as U1 U2 U3.
   destruct (its_params p t L i b Hi) as [P1 P2]. fold j in P1, P2. rewrite Hp in P1. cbn [N.eqb] in P1. rewrite P1, P2. repeat split; assumption || reflexivity.
 Qed.
+
+(* ---- display names: token words or a quoted string, then more words, in front of the bracketed URI ---------------------------------------- *)
+Section Disp.
+  Variable h : N.
+  Notation it := (fb_iter h).
+  Lemma nchar_nonws c : nchar c -> is_ws c = false.
+  Proof. unfold nchar, ccls_of. destruct (is_ws c); [contradiction|reflexivity]. Qed.
+  (* what may follow the first word or the quoted string: words and white space (the parser is then in its display-name state) *)
+  Inductive ntail : list byte -> Prop :=
+  | nt_nil : ntail []
+  | nt_c c T : nchar c -> ntail T -> ntail (c :: T)
+  | nt_w w : wsr w -> ntail w
+  | nt_wc w c T : wsr w -> nchar c -> ntail T -> ntail (w ++ c :: T).
+  Lemma name_step s (pre : list byte) c r i : fb_state s = FbName -> nchar c -> it pre (c :: r) i s = Next 1 s.
+  Proof. intros Hs Hc. unfold fb_iter. rewrite Hs. unfold fb_step, fb_gA, nchar in *. cbn [is_st_init is_st_nameoruriend]. destruct (ccls_of c); try contradiction; reflexivity. Qed.
+  Lemma name_ws s (pre : list byte) c0 r i : fb_state s = FbName -> is_ws c0 = true -> it pre (c0 :: r) i s = fb_lws h pre (c0 :: r) i s.
+  Proof. intros Hs Hc. apply ws_class in Hc. unfold fb_iter. rewrite Hs. unfold fb_step, fb_gA. rewrite Hc. reflexivity. Qed.
+  Lemma ntail_run T : ntail T -> forall s (pre y : list byte) i, fb_state s = FbName ->
+    run it pre (T ++ (60 : byte) :: y) i 0 s = run it (rev T ++ pre) ((60 : byte) :: y) (i + nnat (length T)) 0 s.
+  Proof.
+    induction 1 as [|c T Hc _ IH|w Hw|w c T Hw Hc _ IH]; intros s pre y i Hs.
+    - cbn [app rev length]. f_equal. unfold nnat. lia.
+    - cbn [app]. rewrite (run_one it pre c _ i s s (name_step s pre c _ i Hs Hc)). rewrite IH by exact Hs. cbn [rev length]. rewrite <- app_assoc. cbn [app]. f_equal. unfold nnat. lia.
+    - apply (g_lws h pre w 60 y i s s); [intros c0 r Hc0; apply name_ws; assumption|exact Hw|reflexivity].
+    - rewrite <- app_assoc. cbn [app]. rewrite (g_lws h pre w c (T ++ (60 : byte) :: y) i s s); [|intros c0 r Hc0; apply name_ws; assumption|exact Hw|apply nchar_nonws; exact Hc].
+      rewrite (run_one it _ c _ _ s s (name_step s _ c _ _ Hs Hc)). rewrite IH by exact Hs.
+      rewrite rev_app_distr. cbn [rev]. rewrite <- !app_assoc. cbn [app]. rewrite app_length. cbn [length]. f_equal. unfold nnat. lia.
+  Qed.
+
+  (* the display part in front of "<" *)
+  Inductive disp : list byte -> Prop :=
+  | d_none : disp []
+  | d_word n0 name : nchar0 n0 -> Forall nchar name -> disp (n0 :: name)
+  | d_word_ws n0 name w : nchar0 n0 -> Forall nchar name -> wsr w -> disp ((n0 :: name) ++ w)
+  | d_words n0 name w c T : nchar0 n0 -> Forall nchar name -> wsr w -> nchar0 c -> ntail T -> disp ((n0 :: name) ++ w ++ c :: T)
+  | d_quoted q T : fqc q -> ntail T -> disp ((34 : byte) :: q ++ (34 : byte) :: T).
+  Definition dname (i0 : N) (D : list byte) : pf := if isnilb D then pf0 else mkpf i0 (nnat (length D)).
+  Definition SU (nm : pf) (i0 vl us : N) : pfrom := mkpfrom nm pf0 pf0 false false false 0 0 0 pf0 (mkpf i0 vl) EOk 0 FbURI us 0 0 0 0.
+  Lemma lt_step s (pre : list byte) r i : fb_state s = FbName \/ fb_state s = FbNameOrURI \/ fb_state s = FbNameOrURIEnd -> fb_soffs s <= i ->
+    it pre ((60 : byte) :: r) i s = Next 1 (fb_reset3 (s <| fb_name := mkpf (fb_soffs s) (i - fb_soffs s) |>) <| fb_soffs := i + 1 |> <| fb_state := FbURI |>).
+  Proof.
+    intros Hs Hle. unfold fb_iter. destruct Hs as [Hs|[Hs|Hs]]; rewrite Hs; unfold fb_step, fb_gA; change (ccls_of 60) with KLt; cbn [is_st_init]; unfold pf_set;
+      replace (i <? fb_soffs s) with false by lia; reflexivity.
+  Qed.
+  Lemma fqc_run_name q : fqc q -> forall s (pre y : list byte) i, fb_state s = FbQuoted ->
+    run it pre (q ++ (34 : byte) :: y) i 0 s = run it ((34 : byte) :: rev q ++ pre) y (i + nnat (length q) + 1) 0 (s <| fb_state := FbName |>).
+  Proof.
+    induction 1 as [|c q C1 C2 C3 _ IH|d q Hd _ IH]; intros s pre y i Hs.
+    - cbn [app rev length]. rewrite (run_one it pre 34 y i s (s <| fb_state := FbName |>)); [f_equal; unfold nnat; lia|].
+      unfold fb_iter. rewrite Hs. unfold fb_step, fb_gQ. reflexivity.
+    - cbn [app]. rewrite (run_one it pre c _ i s s); [|unfold fb_iter; rewrite Hs; unfold fb_step, fb_gQ; destruct (ccls_of c); try congruence; reflexivity].
+      rewrite IH by exact Hs. cbn [rev length]. rewrite <- app_assoc. cbn [app]. f_equal. unfold nnat. lia.
+    - change ((92 :: d :: q) ++ (34 : byte) :: y) with ([92; d] ++ (q ++ (34 : byte) :: y)).
+      rewrite (run_step it pre [92; d] _ i s s ltac:(discriminate)); [|cbn [app length]; unfold fb_iter; rewrite Hs; unfold fb_step, fb_gQ; change (ccls_of 92) with KBsl; cbv iota; rewrite Hd; reflexivity].
+      rewrite IH by exact Hs. cbn [rev length app]. rewrite <- !app_assoc. cbn [app]. f_equal. unfold nnat. lia.
+  Qed.
+  Lemma run_eq3 (A A' y : list byte) (B B' : N) (S S' : pfrom) : A = A' -> B = B' -> S = S' -> run it A y B 0 S = run it A' y B' 0 S'.
+  Proof. intros -> -> ->. reflexivity. Qed.
+  Ltac lsteq := repeat (rewrite ?rev_app_distr; cbn [rev]); repeat (rewrite <- ?app_assoc; cbn [app]); reflexivity.
+  Ltac fin_lia := unfold nnat; cbn [length]; rewrite ?app_length; cbn [length]; rewrite ?app_length; cbn [length]; lia.
+  Ltac offeq := cbn [app]; repeat (cbn [length]; rewrite app_length); fin_lia.
+  Ltac steq := unfold SU, dname; cbn [app isnilb]; cbv -[nnat N.add N.sub length app N.of_nat];
+               f_equal; try reflexivity; try (f_equal; try reflexivity; fin_lia); try fin_lia.
+  Lemma disp_run D : disp D -> forall (pre0 y : list byte) i0, i0 = nnat (length pre0) ->
+    exists vl, run it pre0 (D ++ (60 : byte) :: y) i0 0 pfrom0
+               = run it ((60 : byte) :: rev D ++ pre0) y (i0 + nnat (length D) + 1) 0 (SU (dname i0 D) i0 vl (i0 + nnat (length D) + 1)).
+  Proof.
+    intros HD pre0 y i0 Hi.
+    set (s1 := mkpfrom pf0 pf0 pf0 false false false 0 0 0 pf0 (mkpf i0 0) EOk 0 FbNameOrURI i0 0 0 0 0).
+    assert (Hfirst : forall n0 name z, nchar0 n0 -> Forall nchar name ->
+              run it pre0 ((n0 :: name) ++ z) i0 0 pfrom0 = run it (rev (n0 :: name) ++ pre0) z (i0 + nnat (length (n0 :: name))) 0 s1).
+    { intros n0 name z Hn0 Hname. cbn [app]. rewrite (run_one it pre0 n0 _ i0 pfrom0 s1).
+      2:{ unfold fb_iter. cbn [fb_state pfrom0]. unfold fb_step, fb_gA, nchar0 in *. cbn [is_st_init]. unfold pf_set.
+          replace (i0 <? i0) with false by lia. replace (i0 - i0) with 0 by lia. destruct (ccls_of n0); try contradiction; reflexivity. }
+      rewrite (run_selfloop it nchar s1 ltac:(intros p c r j Hc; apply name_loop; [reflexivity|exact Hc]) name _ _ (i0 + 1) Hname).
+      cbn [rev length]. rewrite <- app_assoc. cbn [app]. f_equal. unfold nnat. lia. }
+    assert (Hws : forall n0 name w c z, wsr w -> is_ws c = false ->
+              run it (rev (n0 :: name) ++ pre0) (w ++ c :: z) (i0 + nnat (length (n0 :: name))) 0 s1
+              = run it (rev w ++ rev (n0 :: name) ++ pre0) (c :: z) (i0 + nnat (length (n0 :: name)) + nnat (length w)) 0
+                  (mkpfrom pf0 (mkpf i0 (nnat (length (n0 :: name)))) pf0 false false false 0 0 0 pf0 (mkpf i0 (nnat (length (n0 :: name)))) EOk 0 FbNameOrURIEnd i0 0 0 0 0)).
+    { intros n0 name w c z Hw Hc. apply (g_lws h _ w c z _ s1); [|exact Hw|exact Hc]. intros c0 r Hc0. apply ws_class in Hc0.
+      unfold fb_iter. cbn [fb_state s1]. unfold fb_step, fb_gA. rewrite Hc0. cbn [is_st_nameoruri]. unfold pf_set, pf_extend. cbn [fb_soffs fb_v s1 po pl].
+      replace (i0 + nnat (length (n0 :: name)) <? i0) with false by lia. replace (i0 + nnat (length (n0 :: name)) - i0) with (nnat (length (n0 :: name))) by lia. reflexivity. }
+    destruct HD as [|n0 name Hn0 Hname|n0 name w Hn0 Hname Hw|n0 name w c T Hn0 Hname Hw Hc HT|q T Hq HT].
+    - exists 0. cbn [app rev length]. replace (i0 + nnat 0 + 1) with (i0 + 1) by (unfold nnat; lia). rewrite (run_one it pre0 60 y i0 pfrom0 (SU pf0 i0 0 (i0 + 1))); [reflexivity|].
+      unfold fb_iter. cbn [fb_state pfrom0]. unfold fb_step, fb_gA. change (ccls_of 60) with KLt. cbn [is_st_init]. unfold pf_set.
+      replace (i0 <? i0) with false by lia. replace (i0 - i0) with 0 by lia. reflexivity.
+    - exists 0. rewrite (Hfirst n0 name _ Hn0 Hname). match goal with |- run it ?P _ ?I 0 ?S = _ => rewrite (run_one it P 60 y I S _ (lt_step S P y I ltac:(right; left; reflexivity) ltac:(unfold s1; cbn; lia))) end.
+      subst s1. apply run_eq3; [lsteq|offeq|steq].
+    - exists (nnat (length (n0 :: name))). rewrite <- app_assoc. rewrite (Hfirst n0 name _ Hn0 Hname). rewrite (Hws n0 name w 60 y Hw eq_refl).
+      match goal with |- run it ?P _ ?I 0 ?S = _ => rewrite (run_one it P 60 y I S _ (lt_step S P y I ltac:(right; right; reflexivity) ltac:(cbn; lia))) end.
+      subst s1. apply run_eq3; [lsteq|offeq|steq].
+    - exists (nnat (length (n0 :: name))). rewrite <- !app_assoc. rewrite (Hfirst n0 name _ Hn0 Hname). cbn [app].
+      assert (Hcw : is_ws c = false) by (unfold nchar0, ccls_of in Hc; destruct (is_ws c); [contradiction|reflexivity]).
+      rewrite (Hws n0 name w c _ Hw Hcw).
+      match goal with |- run it ?P (c :: ?R) ?I 0 ?S = _ =>
+        rewrite (run_one it P c R I S (fb_reset3 (S <| fb_state := FbName |>)))  end.
+      2:{ unfold fb_iter. cbn [fb_state]. unfold fb_step, fb_gA, nchar0 in *. cbn [is_st_init is_st_nameoruriend]. destruct (ccls_of c); try contradiction; reflexivity. }
+      rewrite (ntail_run T HT) by reflexivity.
+      match goal with |- run it ?P _ ?I 0 ?S = _ => rewrite (run_one it P 60 y I S _ (lt_step S P y I ltac:(left; reflexivity) ltac:(cbn; lia))) end.
+      subst s1. apply run_eq3; [lsteq|offeq|steq].
+    - exists 0. cbn [app].
+      set (sq := mkpfrom pf0 pf0 pf0 false false false 0 0 0 pf0 (mkpf i0 0) EOk 0 FbQuoted i0 0 0 0 0).
+      rewrite (run_one it pre0 34 _ i0 pfrom0 sq).
+      2:{ unfold fb_iter. cbn [fb_state pfrom0]. unfold fb_step, fb_gA. change (ccls_of 34) with KDq. cbn [is_st_init]. unfold pf_set.
+          replace (i0 <? i0) with false by lia. replace (i0 - i0) with 0 by lia. reflexivity. }
+      rewrite <- app_assoc. cbn [app]. rewrite (fqc_run_name q Hq sq) by reflexivity. rewrite (ntail_run T HT) by reflexivity.
+      match goal with |- run it ?P _ ?I 0 ?S = _ => rewrite (run_one it P 60 y I S _ (lt_step S P y I ltac:(left; reflexivity) ltac:(cbn; lia))) end.
+      subst s1. apply run_eq3; [lsteq|offeq|steq].
+  Qed.
+
+  (* the bracketed URI after any display part, and what follows it *)
+  Definition UF (nm : pf) (i0 us lu : N) : pfrom :=
+    mkpfrom nm (mkpf us lu) pf0 false false false 0 0 0 pf0 (mkpf i0 (us + lu + 1 - i0)) EOk 0 FbURIFound us 0 0 0 0.
+  Definition bD (nm : pf) (i0 us lu : N) : pfrom :=
+    mkpfrom nm (mkpf us lu) pf0 false false false 0 0 0 pf0 (mkpf i0 (us + lu + 1 - i0)) EOk 0 FbNewParam 0 0 0 0 0.
+  Definition fD (nm : pf) (i0 us lu : N) : pfrom :=
+    mkpfrom nm (mkpf us lu) pf0 false false false h 0 0 pf0 (mkpf i0 (us + lu + 1 - i0)) EOk 0 FbFIN 0 0 0 0 0.
+  Lemma uri_seg nm i0 vl us (pre uri y : list byte) : Forall uchar uri -> i0 <= us ->
+    run it pre (uri ++ (62 : byte) :: y) us 0 (SU nm i0 vl us) = run it ((62 : byte) :: rev uri ++ pre) y (us + nnat (length uri) + 1) 0 (UF nm i0 us (nnat (length uri))).
+  Proof.
+    intros Hu Hle.
+    rewrite (run_selfloop it uchar (SU nm i0 vl us) ltac:(intros p c r j Hc; apply uri_loop; [reflexivity|exact Hc]) uri pre _ us Hu).
+    rewrite (run_one it _ 62 y _ _ (UF nm i0 us (nnat (length uri)))); [reflexivity|].
+    unfold fb_iter. cbn [fb_state SU]. unfold fb_step, fb_gURI. change (ccls_of 62) with KGt. unfold pf_set, pf_extend. cbn [fb_soffs fb_v SU po pl].
+    replace (us + nnat (length uri) <? us) with false by lia. replace (us + nnat (length uri) + 1 <? i0) with false by lia.
+    replace (us + nnat (length uri) - us) with (nnat (length uri)) by lia. reflexivity.
+  Qed.
+  Lemma uf_ws nm i0 us lu (pre : list byte) c0 r i : is_ws c0 = true -> it pre (c0 :: r) i (UF nm i0 us lu) = fb_lws h pre (c0 :: r) i (UF nm i0 us lu).
+  Proof. intros Hc. apply ws_class in Hc. unfold fb_iter. cbn [fb_state UF]. unfold fb_step, fb_gURIFound. rewrite Hc. reflexivity. Qed.
+  Lemma uf_gap nm i0 us lu (pre g : list byte) c (y : list byte) i : gp g -> is_ws c = false ->
+    run it pre (g ++ c :: y) i 0 (UF nm i0 us lu) = run it (rev g ++ pre) (c :: y) (i + nnat (length g)) 0 (UF nm i0 us lu).
+  Proof.
+    intros [->|Hw] Hc; [cbn [app rev length]; f_equal; unfold nnat; lia|].
+    apply (g_lws h pre g c y i _ _ (fun c0 r H => uf_ws nm i0 us lu pre c0 r i H) Hw Hc).
+  Qed.
+  Lemma uf_semi nm i0 us lu (pre g y : list byte) i : gp g ->
+    run it pre (g ++ (59 : byte) :: y) i 0 (UF nm i0 us lu) = run it ((59 : byte) :: rev g ++ pre) y (i + nnat (length g) + 1) 0 (bD nm i0 us lu).
+  Proof. intros Hg. rewrite (uf_gap nm i0 us lu pre g 59 y i Hg eq_refl). rewrite (run_one it _ 59 y _ _ (bD nm i0 us lu)) by reflexivity. reflexivity. Qed.
+  Lemma uf_eol nm i0 us lu (pre sp : list byte) x tail i : spaces sp -> is_sp x = false ->
+    run it pre (sp ++ CR :: LF :: x :: tail) i 0 (UF nm i0 us lu) = Done (i + nnat (length sp) + 2) EOk (fD nm i0 us lu).
+  Proof.
+    intros Hsp Hx. rewrite run_after. destruct (eol_first sp x tail Hsp) as (c0 & r & Er & Hc0).
+    assert (E : it pre (sp ++ CR :: LF :: x :: tail) i (UF nm i0 us lu) = Ret (i + nnat (length sp) + nnat 2) EOk (fD nm i0 us lu)).
+    { rewrite Er. rewrite (uf_ws nm i0 us lu pre c0 r i Hc0). unfold fb_lws. rewrite <- Er. rewrite (skipLWS_sp_eol sp x tail Hsp Hx). reflexivity. }
+    rewrite E. cbn [after]. f_equal.
+  Qed.
+  Lemma uf_comma nm i0 us lu (pre g y : list byte) i : multipleValsOk h = true -> gp g ->
+    run it pre (g ++ (44 : byte) :: y) i 0 (UF nm i0 us lu) = Done (i + nnat (length g) + 1) EMoreValues (fD nm i0 us lu).
+  Proof.
+    intros Hmv Hg. rewrite (uf_gap nm i0 us lu pre g 44 y i Hg eq_refl). rewrite run_after.
+    assert (E : forall P I, it P ((44 : byte) :: y) I (UF nm i0 us lu) = Ret (I + 1) EMoreValues (fD nm i0 us lu)).
+    { intros P I. unfold fb_iter. cbn [fb_state UF]. unfold fb_step, fb_gURIFound. change (ccls_of 44) with KComma. unfold fb_comma. rewrite Hmv. reflexivity. }
+    rewrite E. reflexivity.
+  Qed.
+
+  (* ---- the theorems with any display part ------------------------------------------------------------------------------------------------- *)
+  Definition bhead (D uri : list byte) : list byte := D ++ (60 : byte) :: uri ++ [(62 : byte)].
+  Lemma bhead_run D (uri pre0 y : list byte) i0 : disp D -> Forall uchar uri -> i0 = nnat (length pre0) ->
+    let us := i0 + nnat (length D) + 1 in
+    run it pre0 (bhead D uri ++ y) i0 0 pfrom0 = run it (rev (bhead D uri) ++ pre0) y (i0 + nnat (length (bhead D uri))) 0 (UF (dname i0 D) i0 us (nnat (length uri))).
+  Proof.
+    intros HD Hu Hi us. unfold bhead. repeat (rewrite <- ?app_assoc; cbn [app]).
+    destruct (disp_run D HD pre0 (uri ++ (62 : byte) :: y) i0 Hi) as (vl & ->). fold us.
+    rewrite (uri_seg (dname i0 D) i0 vl us _ uri y Hu ltac:(subst us; lia)).
+    apply run_eq3; [repeat (rewrite ?rev_app_distr; cbn [rev]); repeat (rewrite <- ?app_assoc; cbn [app]); reflexivity| |reflexivity].
+    subst us. repeat (rewrite app_length; cbn [length]). unfold nnat. lia.
+  Qed.
+  Lemma bD_base nm i0 us lu j : i0 <= j -> isbase false j (bD nm i0 us lu).
+  Proof. intros H. unfold isbase, bD. cbn. repeat split; auto; lia. Qed.
+
+  Theorem nameaddr_display_uri_eol (junk D uri sp : list byte) x tail : disp D -> Forall uchar uri -> spaces sp -> is_sp x = false ->
+    let i0 := nnat (length junk) in let us := i0 + nnat (length D) + 1 in let lu := nnat (length uri) in
+    parse_nameaddr h (junk ++ bhead D uri ++ sp ++ CR :: LF :: x :: tail) i0 pfrom0 = Done (us + lu + 1 + nnat (length sp) + 2) EOk (fD (dname i0 D) i0 us lu).
+  Proof.
+    intros HD Hu Hsp Hx i0 us lu. unfold parse_nameaddr. rewrite parse_at.
+    rewrite (bhead_run D uri (rev junk) _ i0 HD Hu ltac:(subst i0; rewrite rev_length; reflexivity)). fold us lu.
+    rewrite uf_eol by assumption. f_equal. subst us lu. unfold bhead. repeat (rewrite app_length; cbn [length]). unfold nnat. lia.
+  Qed.
+  Theorem nameaddr_display_uri_comma (junk D uri g y : list byte) : multipleValsOk h = true -> disp D -> Forall uchar uri -> gp g ->
+    let i0 := nnat (length junk) in let us := i0 + nnat (length D) + 1 in let lu := nnat (length uri) in
+    parse_nameaddr h (junk ++ bhead D uri ++ g ++ (44 : byte) :: y) i0 pfrom0 = Done (us + lu + 1 + nnat (length g) + 1) EMoreValues (fD (dname i0 D) i0 us lu).
+  Proof.
+    intros Hmv HD Hu Hg i0 us lu. unfold parse_nameaddr. rewrite parse_at.
+    rewrite (bhead_run D uri (rev junk) _ i0 HD Hu ltac:(subst i0; rewrite rev_length; reflexivity)). fold us lu.
+    rewrite uf_comma by assumption. f_equal. subst us lu. unfold bhead. repeat (rewrite app_length; cbn [length]). unfold nnat. lia.
+  Qed.
+  Theorem nameaddr_display_params_eol (junk D uri g : list byte) L t (sp : list byte) x tail : disp D -> Forall uchar uri -> gp g -> Forall t_ok L -> t_ok t -> spaces sp -> is_sp x = false ->
+    let i0 := nnat (length junk) in let us := i0 + nnat (length D) + 1 in let lu := nnat (length uri) in
+    let i := us + lu + 1 + nnat (length g) + 1 in let j := i + nnat (length (its_bytes L)) in
+    parse_nameaddr h (junk ++ bhead D uri ++ g ++ (59 : byte) :: its_bytes L ++ t_body t ++ sp ++ CR :: LF :: x :: tail) i0 pfrom0
+    = Done (t_d j t + nnat (length sp) + 2) EOk (finW h (t_d j t) (t_apply false j t (its_state false i L (bD (dname i0 D) i0 us lu)))).
+  Proof.
+    intros HD Hu Hg HL Ht Hsp Hx i0 us lu i j. unfold parse_nameaddr. rewrite parse_at.
+    rewrite (bhead_run D uri (rev junk) _ i0 HD Hu ltac:(subst i0; rewrite rev_length; reflexivity)). fold us lu.
+    rewrite (uf_semi _ _ _ _ _ g _ _ Hg).
+    assert (Ei : i0 + nnat (length (bhead D uri)) + nnat (length g) + 1 = i) by (subst i us lu; unfold bhead; repeat (rewrite app_length; cbn [length]); unfold nnat; lia).
+    rewrite Ei. apply (params_eol h false L t _ _ sp x tail i HL Ht); auto.
+    - apply bD_base. subst i us. lia.
+    - rewrite <- Ei. cbn [length]. rewrite !app_length, !rev_length. subst i0. unfold nnat. lia.
+    - subst i. lia.
+  Qed.
+  Theorem nameaddr_display_params_comma (junk D uri g : list byte) L t (y : list byte) : multipleValsOk h = true -> disp D -> Forall uchar uri -> gp g -> Forall t_ok L -> t_ok t ->
+    let i0 := nnat (length junk) in let us := i0 + nnat (length D) + 1 in let lu := nnat (length uri) in
+    let i := us + lu + 1 + nnat (length g) + 1 in let j := i + nnat (length (its_bytes L)) in
+    parse_nameaddr h (junk ++ bhead D uri ++ g ++ (59 : byte) :: its_bytes L ++ t_body t ++ t_g4 t ++ (44 : byte) :: y) i0 pfrom0
+    = Done (t_d j t + nnat (length (t_g4 t)) + 1) EMoreValues (finW h (t_d j t) (t_apply false j t (its_state false i L (bD (dname i0 D) i0 us lu)))).
+  Proof.
+    intros Hmv HD Hu Hg HL Ht i0 us lu i j. unfold parse_nameaddr. rewrite parse_at.
+    rewrite (bhead_run D uri (rev junk) _ i0 HD Hu ltac:(subst i0; rewrite rev_length; reflexivity)). fold us lu.
+    rewrite (uf_semi _ _ _ _ _ g _ _ Hg).
+    assert (Ei : i0 + nnat (length (bhead D uri)) + nnat (length g) + 1 = i) by (subst i us lu; unfold bhead; repeat (rewrite app_length; cbn [length]); unfold nnat; lia).
+    rewrite Ei. apply (params_comma h false L t _ _ y i Hmv HL Ht); auto.
+    - apply bD_base. subst i us. lia.
+    - rewrite <- Ei. cbn [length]. rewrite !app_length, !rev_length. subst i0. unfold nnat. lia.
+    - subst i. lia.
+  Qed.
+End Disp.
